@@ -918,7 +918,9 @@ func (a *Agent) gatherCandidatesSrflx(ctx context.Context, urls []*stun.URI, net
 				}
 			})
 		}
+		watcherDone := make(chan struct{})
 		go func() {
+			defer close(watcherDone)
 			select {
 			case <-cancelCtx.Done():
 				return
@@ -928,6 +930,10 @@ func (a *Agent) gatherCandidatesSrflx(ctx context.Context, urls []*stun.URI, net
 		}()
 
 		xorAddr, err := stunx.GetXORMappedAddr(conn, serverAddr, a.stunGatherTimeout)
+		// The exchange is over: retire the watcher before the socket can change hands,
+		// so that it cannot close a socket that a candidate already owns.
+		cancelFunc()
+		<-watcherDone
 		if err != nil {
 			a.log.Warnf("failed to get server reflexive address %s %s: %v", network, url, err)
 			closeConn()
